@@ -36,7 +36,15 @@ def configs(tier, seed):
                             continue  # slicing away the dimension a flow is split by is a contradictory setting (flodym raises)
                         key = f"sankey/" + "+".join(f"{a}>{b}:{d}" for (a, b), d in zip(fs, fdims)) + f"/slice={''.join(f'{k}{v}' for k, v in sl.items()) or '-'}/excl={','.join(excl) or '-'}/exf={int(exf)}/split={split}"
                         out.append(dict(h="sankey", op="sankey", key=key, procs=procs, flows=[list(p) for p in fs], fdims=fdims, stocks=[], slice=sl, excl=excl, exf=exf, split=split))
-    shapes = ["t2", "t3a2", "a2t3", "t2a2b2", "b2t3a2"] + (["a3t2b2"] if tier == "thorough" else [])
+    # several excluded processes, written in and out of definition order
+    procs4 = ["sysenv", "p1", "p2", "p3"]
+    for fs in ([("p2", "p3")], [("p3", "p2"), ("p2", "p3")], [("sysenv", "p2"), ("p2", "p3"), ("p3", "p1")], [("p1", "p3"), ("p3", "p2")]):
+        fdims = ["ta", "b", "tab"][: len(fs)]
+        for excl in (["sysenv", "p1"], ["p1", "sysenv"], ["p3", "sysenv"], ["p2", "p1"], ["p1", "p1"], ["p3", "p1", "sysenv"]):
+            for sl in ({}, {"a": "a2"}):
+                key = "sankey/" + "+".join(f"{a}>{b}:{d}" for (a, b), d in zip(fs, fdims)) + f"/slice={''.join(f'{k}{v}' for k, v in sl.items()) or '-'}/excl={','.join(excl)}/exf=0/split=None"
+                out.append(dict(h="sankey", op="sankey", key=key, procs=procs4, flows=[list(p) for p in fs], fdims=fdims, stocks=[], slice=sl, excl=excl, exf=False, split=None))
+    shapes = ["t2", "t3a2", "a2t3", "t2a2b2", "b2t3a2", "a3t3"] + (["a3t2b2"] if tier == "thorough" else [])
     for shape in shapes:
         letters = shape[0::2]
         for roles in itertools.permutations(letters):
@@ -79,7 +87,7 @@ def _sankey(cfg, w):
         return
     link = fig.data[0].link
     src, tgt, val, lab = list(link.source or []), list(link.target or []), list(link.value or []), list(link.label or [])
-    shown_procs = [p for p in cfg["procs"] if p not in cfg["excl"]]
+    shown_procs = [p for p in cfg["procs"] if p not in cfg["excl"]]  # definition order, whatever order the exclusions were written in
     node = {p: i for i, p in enumerate(shown_procs)}
     w.ob("node_labels", list(fig.data[0].node.label) == shown_procs)
     expected = []
